@@ -155,3 +155,406 @@ Qed.
 Example append_booleans_ex :
   append_booleans (E [1;0;1]) 3 [1;1;0;0;0;1;1] = (E [1;0;1;1;1;0;0;0;1;1], 10).
 Proof. vm_compute. reflexivity. Qed.
+
+(* ------------------------------------------------------------------ rows, dense values, levels *)
+
+Definition dense (rs : list row) : list value :=
+  flat_map (fun r => match r with Some v => [v] | None => [] end) rs.
+Definition levels_of (rs : list row) : list N :=
+  map (fun r => match r with Some _ => 1 | None => 0 end) rs.
+
+(** the PLAIN encoding of the dense values of a page *)
+Definition plain_all (t : ptype) (vals : list value) : list N :=
+  match t with TBool => plain_encode_boolean (map num vals) | _ => plain_append t vals end.
+
+Lemma dense_app a b : dense (a ++ b) = dense a ++ dense b.
+Proof. apply flat_map_app. Qed.
+Lemma levels_of_app a b : levels_of (a ++ b) = levels_of a ++ levels_of b.
+Proof. apply map_app. Qed.
+Lemma dense_some vals : dense (map Some vals) = vals.
+Proof. induction vals as [|v t IH]; [reflexivity|]. cbn. f_equal. exact IH. Qed.
+Lemma levels_of_some vals : levels_of (map Some vals) = repeat 1 (length vals).
+Proof. induction vals as [|v t IH]; [reflexivity|]. cbn. f_equal. exact IH. Qed.
+
+Lemma count_eq_cons x d ds : count_eq x (d :: ds) = ((if (x =? d)%N then 1 else 0) + count_eq x ds)%nat.
+Proof. unfold count_eq. cbn [filter]. destruct (x =? d); reflexivity. Qed.
+
+Lemma assemble_dense : forall ds vals, count_eq 1 ds = length vals -> dense (assemble 1 ds vals) = vals.
+Proof.
+  induction ds as [|d ds IH]; intros vals H.
+  - destruct vals; [reflexivity|discriminate].
+  - rewrite count_eq_cons in H. cbn [assemble]. rewrite (N.eqb_sym d 1).
+    destruct (1 =? d).
+    + destruct vals as [|v vs]; [discriminate|]. cbn [dense flat_map app]. f_equal.
+      apply IH. cbn [length] in H. lia.
+    + cbn [dense flat_map app]. apply IH. exact H.
+Qed.
+
+Lemma assemble_levels : forall ds vals, forallb (fun d => d <? 2) ds = true -> count_eq 1 ds = length vals ->
+  levels_of (assemble 1 ds vals) = ds.
+Proof.
+  induction ds as [|d ds IH]; intros vals Hb H; [reflexivity|].
+  cbn [forallb] in Hb. apply andb_prop in Hb. destruct Hb as [Hd Hb]. apply N.ltb_lt in Hd.
+  rewrite count_eq_cons in H. cbn [assemble]. rewrite (N.eqb_sym d 1).
+  destruct (N.eqb_spec 1 d) as [<-|Hne].
+  - destruct vals as [|v vs]; [discriminate|]. cbn [levels_of map]. f_equal. apply IH; [exact Hb|cbn [length] in H; lia].
+  - cbn [levels_of map]. f_equal; [lia|]. apply IH; assumption.
+Qed.
+
+Lemma count_eq_levels rows : count_eq 1 (levels_of rows) = length (dense rows).
+Proof.
+  induction rows as [|r rows IH]; [reflexivity|]. cbn [levels_of map]. rewrite count_eq_cons.
+  destruct r; cbn [dense flat_map app length N.eqb Pos.eqb]; fold (dense rows); fold (levels_of rows); lia.
+Qed.
+
+Lemma assemble_of_rows rows : Forall (fun r => r = r) rows -> assemble 1 (levels_of rows) (dense rows) = rows.
+Proof.
+  intros _. induction rows as [|r rows IH]; [reflexivity|].
+  destruct r as [v|]; cbn [levels_of map dense flat_map app assemble N.eqb Pos.eqb];
+    fold (levels_of rows); fold (dense rows); rewrite IH; reflexivity.
+Qed.
+
+Lemma plain_append_app t a b : plain_append t (a ++ b) = plain_append t a ++ plain_append t b.
+Proof.
+  destruct t; cbn [plain_append]; try reflexivity;
+    unfold plain_encode_int32, plain_encode_int64, plain_encode_float, plain_encode_double, enc_fixed,
+           plain_encode_byte_array, plain_encode_flba;
+    rewrite ?map_app, ?flat_map_app, ?concat_app; reflexivity.
+Qed.
+
+(* ------------------------------------------------------------------ the page invariant *)
+
+Record PInv (c : column) (w : pw) (rows : list row) : Prop := mkPInv {
+  pi_col : p_col w = c;
+  pi_defs : p_defs w = match c_rep c with Optional => levels_of rows | Required => [] end;
+  pi_values : p_values w = plain_all (c_type c) (dense rows);
+  pi_num : p_num_values w = len rows;
+  pi_nb : c_type c = TBool -> p_num_booleans w = len (dense rows);
+  pi_ok : forallb (row_ok c) rows = true
+}.
+
+Lemma pinv_init c : PInv c (pw_init c) [].
+Proof. constructor; try reflexivity. destruct (c_rep c); reflexivity. destruct (c_type c); reflexivity. Qed.
+
+Lemma rows_of_batch_ok c b : batch_ok c b = true -> forallb (row_ok c) (rows_of_batch c b) = true.
+Proof.
+  unfold batch_ok, rows_of_batch. intros H. apply andb_prop in H. destruct H as [Hv H].
+  assert (Hs : forallb (row_ok c) (map Some (b_vals b)) = true).
+  { rewrite forallb_forall in *. intros r Hr. apply in_map_iff in Hr. destruct Hr as (v & <- & Hin).
+    cbn [row_ok]. apply Hv, Hin. }
+  destruct (c_rep c) eqn:R; [exact Hs|]. destruct (b_defs b) as [ds|]; [|exact Hs].
+  clear Hs H. revert Hv. generalize (b_vals b). induction ds as [|d ds IH]; intros vals Hv; [reflexivity|].
+  cbn [assemble]. destruct (d =? 1).
+  - destruct vals as [|v vs].
+    + cbn [forallb row_ok]. rewrite R. apply (IH [] Hv).
+    + cbn [forallb] in *. apply andb_prop in Hv. destruct Hv as [H1 H2]. cbn [row_ok]. rewrite H1. apply IH, H2.
+  - cbn [forallb row_ok]. rewrite R. apply IH, Hv.
+Qed.
+
+Lemma len_app' {A} (a b : list A) : len (a ++ b) = len a + len b.
+Proof. unfold len. rewrite app_length. lia. Qed.
+
+Lemma values_step c w rows vals : p_values w = plain_all (c_type c) (dense rows) ->
+  (c_type c = TBool -> p_num_booleans w = len (dense rows)) ->
+  match c_type c with
+  | TBool => append_booleans (p_values w) (p_num_booleans w) (map num vals)
+  | t => (p_values w ++ plain_append t vals, p_num_booleans w)
+  end = (plain_all (c_type c) (dense rows ++ vals),
+         match c_type c with TBool => len (dense rows ++ vals) | _ => p_num_booleans w end).
+Proof.
+  intros Iv Inb. rewrite Iv. destruct (c_type c) eqn:T; cbn [plain_all]; rewrite ?plain_append_app; try reflexivity.
+  rewrite (Inb eq_refl). unfold len at 1. rewrite <- (map_length num (dense rows)). fold (len (map num (dense rows))).
+  rewrite append_booleans_spec, map_app. f_equal. unfold len. rewrite <- map_app, map_length. reflexivity.
+Qed.
+
+(** every consistent write_batch call: the buffers stay the encodings of all rows of the page so far *)
+Theorem add_values_inv c w rows b : PInv c w rows -> batch_ok c b = true ->
+  exists w', add_values w b = Ok w' /\ PInv c w' (rows ++ rows_of_batch c b).
+Proof.
+  intros I Hb. pose proof (rows_of_batch_ok c b Hb) as Hrows.
+  destruct I as [Ic Id Iv In Inb Iok].
+  unfold batch_ok in Hb. apply andb_prop in Hb. destruct Hb as [Hvals Hb].
+  unfold add_values. rewrite Ic. unfold max_def.
+  (* the three shapes of a call *)
+  assert (Shape :
+    exists (ds : option (list N)) (lv : list N),
+      (if 0 <? match c_rep c with Optional => 1 | Required => 0 end
+       then match b_defs b with Some d => Some (firstn (b_nrows b) d) | None => None end else None) = ds
+      /\ ((0 <? match c_rep c with Optional => 1 | Required => 0 end)
+          && match b_defs b with Some d => Nat.ltb (length d) (b_nrows b) | None => false end) = false
+      /\ match ds with Some d => count_eq match c_rep c with Optional => 1 | Required => 0 end d
+                     | None => b_nrows b end = length (b_vals b)
+      /\ dense (rows_of_batch c b) = b_vals b
+      /\ length (rows_of_batch c b) = b_nrows b
+      /\ match c_rep c with
+         | Optional => match ds with Some d => d | None => repeat 1 (b_nrows b) end = lv
+                       /\ levels_of (rows_of_batch c b) = lv
+         | Required => True
+         end).
+  { unfold rows_of_batch. destruct (c_rep c) eqn:R.
+    - apply Nat.eqb_eq in Hb. exists None, []. cbn [N.ltb N.compare andb].
+      rewrite dense_some, map_length. repeat split; try reflexivity; try (symmetry; exact Hb). exact Hb.
+    - destruct (b_defs b) as [d|] eqn:D.
+      + apply andb_prop in Hb. destruct Hb as [Hb Hc]. apply andb_prop in Hb. destruct Hb as [Hl Hd].
+        apply Nat.eqb_eq in Hl, Hc. exists (Some d), d.
+        change (0 <? 1) with true. cbn [andb]. rewrite <- Hl, firstn_all, Nat.ltb_irrefl.
+        rewrite assemble_dense by exact Hc. rewrite assemble_levels by assumption.
+        repeat split; try reflexivity; try exact Hc.
+        rewrite <- (assemble_levels d (b_vals b) Hd Hc) at 2. unfold levels_of. rewrite map_length. reflexivity.
+      + apply Nat.eqb_eq in Hb. exists None, (repeat 1 (b_nrows b)). change (0 <? 1) with true. cbn [andb].
+        rewrite dense_some, map_length, levels_of_some, Hb. repeat split; reflexivity. }
+  destruct Shape as (ds & lv & -> & -> & Hnn & Hdense & Hlen & Hlv).
+  rewrite Hnn, Nat.ltb_irrefl, firstn_all.
+  rewrite (values_step c w rows (b_vals b) Iv Inb).
+  eexists. split; [reflexivity|].
+  constructor; cbn [p_col p_defs p_values p_num_values p_num_booleans].
+  - reflexivity.
+  - rewrite Id. destruct (c_rep c); [reflexivity|]. destruct Hlv as [L1 L2].
+    change (0 <? 1) with true. cbn iota. rewrite levels_of_app, L2, <- L1. destruct ds; reflexivity.
+  - rewrite dense_app, Hdense. reflexivity.
+  - rewrite In, len_app'. unfold len. rewrite Hlen. reflexivity.
+  - intros T. rewrite T, dense_app, Hdense. reflexivity.
+  - rewrite forallb_app, Iok, Hrows. reflexivity.
+Qed.
+
+(** any number of calls: the page state after [batches] holds exactly their rows *)
+Fixpoint add_all (w : pw) (bs : list batch) : res pw :=
+  match bs with
+  | [] => Ok w
+  | b :: t => match add_values w b with Ok w' => add_all w' t | Err e => Err e | Fault f => Fault f end
+  end.
+
+Definition rows_of (c : column) (bs : list batch) : list row := flat_map (rows_of_batch c) bs.
+
+Theorem add_all_inv c : forall bs w rows, PInv c w rows -> forallb (batch_ok c) bs = true ->
+  exists w', add_all w bs = Ok w' /\ PInv c w' (rows ++ rows_of c bs).
+Proof.
+  induction bs as [|b bs IH]; intros w rows I H.
+  - exists w. cbn [add_all rows_of flat_map]. rewrite app_nil_r. auto.
+  - cbn [forallb] in H. apply andb_prop in H. destruct H as [Hb Hbs].
+    destruct (add_values_inv c w rows b I Hb) as (w1 & E1 & I1).
+    destruct (IH w1 _ I1 Hbs) as (w2 & E2 & I2).
+    exists w2. cbn [add_all]. rewrite E1. split; [exact E2|].
+    cbn [rows_of flat_map]. rewrite app_assoc. exact I2.
+Qed.
+
+(* ------------------------------------------------------------------ decoding the values of a page *)
+
+Definition value_okP (c : column) (v : value) : Prop := value_ok c v = true.
+
+Lemma forallb_byte_ok v : forallb byte_ok v = true -> bytes v.
+Proof.
+  intros H. unfold bytes. apply Forall_forall. intros x Hx. rewrite forallb_forall in H.
+  unfold byte, byte_ok in *. apply N.ltb_lt, H, Hx.
+Qed.
+
+Lemma fixed_back k vals : Forall (fun v => bytes v /\ length v = k) vals ->
+  map (le_bytes_f k) (map num vals) = vals /\ Forall (fun x => x < 256 ^ N.of_nat k) (map num vals).
+Proof.
+  intros H. induction H as [|v t [Hb Hl] Ht [IH1 IH2]]; [split; [reflexivity|constructor]|].
+  cbn [map]. split.
+  - rewrite IH1. f_equal. unfold num. rewrite le_bytes_f_eq, le_num_f_eq, <- Hl. apply le_bytes_num, Hb.
+  - constructor; [|exact IH2]. unfold num. rewrite le_num_f_eq, <- Hl. apply le_num_lt, Hb.
+Qed.
+
+Lemma chunk_concat k vals : Forall (fun v : list N => length v = k) vals ->
+  chunk k (length vals) (concat vals) = vals.
+Proof.
+  intros H. induction H as [|v t Hv Ht IH]; [reflexivity|].
+  cbn [length chunk concat]. rewrite firstn_app, <- Hv, Nat.sub_diag, firstn_O, app_nil_r, firstn_all.
+  rewrite skipn_app, Nat.sub_diag, skipn_O, skipn_all. cbn [app]. rewrite Hv, IH. reflexivity.
+Qed.
+
+Lemma concat_len k (vals : list (list N)) : Forall (fun v => length v = k) vals ->
+  len (concat vals) = len vals * N.of_nat k.
+Proof.
+  intros H. induction H as [|v t Hv Ht IH]; [reflexivity|].
+  cbn [concat]. rewrite len_app', IH. unfold len. cbn [length]. rewrite Hv. lia.
+Qed.
+
+Lemma value_ok_fixed c k : width (c_type c) (c_tlen c) = Some k -> c_type c <> TBool ->
+  forall vals, forallb (value_ok c) vals = true -> Forall (fun v => bytes v /\ length v = k) vals.
+Proof.
+  intros Hw Hnb vals H. apply Forall_forall. intros v Hv. rewrite forallb_forall in H. specialize (H v Hv).
+  unfold value_ok in H. apply andb_prop in H. destruct H as [Hb Ht]. split; [apply forallb_byte_ok, Hb|].
+  revert Hw Hnb Ht. destruct (c_type c); intros Hw Hnb Ht; try (exfalso; apply Hnb; reflexivity); try discriminate;
+    cbn [width] in *; inversion Hw; subst; apply Nat.eqb_eq in Ht; exact Ht.
+Qed.
+
+(** carquet_decode_plain on the values region of a page returns the dense values written *)
+Lemma decode_plain_all c vals : column_ok c = true -> forallb (value_ok c) vals = true ->
+  len (plain_all (c_type c) vals) < 2 ^ 63 -> len vals < 2 ^ 63 ->
+  decode_plain (c_type c) (c_tlen c) (plain_all (c_type c) vals) (len vals) = Ok vals.
+Proof.
+  intros Hc Hv Hsz Hn. unfold decode_plain.
+  assert (L : len (map num vals) = len vals) by (unfold len; rewrite map_length; reflexivity).
+  destruct (c_type c) eqn:T; cbn [plain_all plain_append] in *.
+  - (* BOOLEAN *)
+    assert (F : Forall (fun v => bytes v /\ length v = 1%nat) vals /\ Forall (fun x => x < 2) (map num vals)).
+    { split; apply Forall_forall; intros v Hin.
+      - rewrite forallb_forall in Hv. specialize (Hv v Hin). unfold value_ok in Hv. rewrite T in Hv.
+        apply andb_prop in Hv. destruct Hv as [Hb Ht]. split; [apply forallb_byte_ok, Hb|].
+        destruct v as [|x [|y l]]; try discriminate. reflexivity.
+      - apply in_map_iff in Hin. destruct Hin as (v0 & <- & Hin).
+        rewrite forallb_forall in Hv. specialize (Hv v0 Hin). unfold value_ok in Hv. rewrite T in Hv.
+        apply andb_prop in Hv. destruct Hv as [_ Ht]. destruct v0 as [|x [|y l]]; try discriminate.
+        apply N.ltb_lt in Ht. unfold num. cbn. lia. }
+    destruct F as [F1 F2]. rewrite <- L. rewrite plain_roundtrip_boolean_bits by (rewrite ?L; assumption).
+    f_equal. apply (fixed_back 1 vals F1).
+  - pose proof (value_ok_fixed c 4 ltac:(rewrite T; reflexivity) ltac:(rewrite T; discriminate) vals Hv) as F.
+    destruct (fixed_back 4 vals F) as [B1 B2]. rewrite <- L.
+    unfold plain_decode_int32, plain_encode_int32. rewrite fixed_roundtrip by (try exact B2; lia).
+    f_equal. exact B1.
+  - pose proof (value_ok_fixed c 8 ltac:(rewrite T; reflexivity) ltac:(rewrite T; discriminate) vals Hv) as F.
+    destruct (fixed_back 8 vals F) as [B1 B2]. rewrite <- L.
+    unfold plain_decode_int64, plain_encode_int64. rewrite fixed_roundtrip by (try exact B2; lia).
+    f_equal. exact B1.
+  - pose proof (value_ok_fixed c 4 ltac:(rewrite T; reflexivity) ltac:(rewrite T; discriminate) vals Hv) as F.
+    destruct (fixed_back 4 vals F) as [B1 B2]. rewrite <- L.
+    unfold plain_decode_float, plain_encode_float. rewrite fixed_roundtrip by (try exact B2; lia).
+    f_equal. exact B1.
+  - pose proof (value_ok_fixed c 8 ltac:(rewrite T; reflexivity) ltac:(rewrite T; discriminate) vals Hv) as F.
+    destruct (fixed_back 8 vals F) as [B1 B2]. rewrite <- L.
+    unfold plain_decode_double, plain_encode_double. rewrite fixed_roundtrip by (try exact B2; lia).
+    f_equal. exact B1.
+  - (* BYTE_ARRAY *)
+    assert (F : Forall ba_ok vals).
+    { apply Forall_forall. intros v Hin. rewrite forallb_forall in Hv. specialize (Hv v Hin).
+      unfold value_ok in Hv. rewrite T in Hv. apply andb_prop in Hv. destruct Hv as [_ Ht].
+      apply N.ltb_lt in Ht. exact Ht. }
+    rewrite plain_roundtrip_byte_array by exact F. reflexivity.
+  - (* FIXED_LEN_BYTE_ARRAY *)
+    pose proof (value_ok_fixed c (N.to_nat (c_tlen c)) ltac:(rewrite T; reflexivity) ltac:(rewrite T; discriminate) vals Hv) as F.
+    assert (F2 : Forall (fun v : list N => length v = N.to_nat (c_tlen c)) vals)
+      by (eapply Forall_impl; [|exact F]; intros a [_ Ha]; exact Ha).
+    unfold column_ok in Hc. rewrite T in Hc. apply N.ltb_lt in Hc.
+    pose proof (concat_len _ vals F2) as CL. rewrite N2Nat.id in CL.
+    rewrite plain_roundtrip_flba; [|lia|exact CL].
+    unfold len at 1. rewrite Nat2N.id, chunk_concat by exact F2. reflexivity.
+Qed.
+
+(* ------------------------------------------------------------------ the page body round trip *)
+
+Lemma le32_length x : length (le32 x) = 4%nat.
+Proof. unfold le32. rewrite le_bytes_f_eq. apply le_bytes_length. Qed.
+
+Lemma le32_val_app x rest : x < 2 ^ 32 -> le32_val (le32 x ++ rest) = x.
+Proof.
+  intros H. unfold le32_val. rewrite firstn_app, le32_length, Nat.sub_diag, firstn_O, app_nil_r.
+  rewrite firstn_all2 by (rewrite le32_length; lia).
+  unfold le32. rewrite N.mod_small by exact H. rewrite le_num_f_eq, le_bytes_f_eq. apply le_num_bytes.
+  change (256 ^ N.of_nat 4) with (2 ^ 32). exact H.
+Qed.
+
+Lemma required_rows c rows : c_rep c = Required -> forallb (row_ok c) rows = true -> rows = map Some (dense rows).
+Proof.
+  intros R. induction rows as [|r rows IH]; intros H; [reflexivity|].
+  cbn [forallb] in H. apply andb_prop in H. destruct H as [Hr H].
+  destruct r as [v|]; [|unfold row_ok in Hr; rewrite R in Hr; discriminate].
+  cbn [dense flat_map app map]. f_equal. apply IH, H.
+Qed.
+
+Lemma dense_ok c rows : forallb (row_ok c) rows = true -> forallb (value_ok c) (dense rows) = true.
+Proof.
+  induction rows as [|r rows IH]; intros H; [reflexivity|].
+  cbn [forallb] in H. apply andb_prop in H. destruct H as [Hr H].
+  destruct r as [v|]; cbn [dense flat_map app forallb]; [cbn [row_ok] in Hr; rewrite Hr|]; apply IH, H.
+Qed.
+
+Lemma levels_small rows : Forall (fun v => v < 2 ^ N.of_nat 1) (levels_of rows).
+Proof. apply Forall_forall. intros x H. apply in_map_iff in H. destruct H as (r & <- & _). destruct r; cbn; lia. Qed.
+
+Lemma dense_le rows : (length (dense rows) <= length rows)%nat.
+Proof.
+  induction rows as [|r rows' IH]; [cbn; lia|].
+  destruct r; cbn [dense flat_map app length]; fold (dense rows'); lia.
+Qed.
+
+Lemma read_level_block_spec w rle vals n : len rle < 2 ^ 32 ->
+  read_level_block w (le32 (len rle) ++ rle ++ vals) n
+  = match decode_levels_rle w rle n with Ok lv => Ok (lv, vals) | Err e => Err e | Fault f => Fault f end.
+Proof.
+  intros Hr. unfold read_level_block.
+  assert (L4 : len (le32 (len rle)) = 4) by (unfold len; rewrite le32_length; reflexivity).
+  assert (E4 : (len (le32 (len rle) ++ rle ++ vals) <? 4) = false).
+  { apply N.ltb_ge. rewrite len_app', L4. lia. }
+  rewrite E4, le32_val_app by exact Hr.
+  rewrite skipn_app, le32_length, Nat.sub_diag, skipn_O, skipn_all2 by (rewrite le32_length; lia). cbn [app].
+  assert (E5 : (len (rle ++ vals) <? len rle) = false) by (apply N.ltb_ge; rewrite len_app'; lia).
+  rewrite E5.
+  assert (Nr : N.to_nat (len rle) = length rle) by (unfold len; apply Nat2N.id).
+  rewrite Nr, firstn_app, Nat.sub_diag, firstn_O, app_nil_r, firstn_all.
+  rewrite skipn_app, Nat.sub_diag, skipn_O, skipn_all. reflexivity.
+Qed.
+
+Lemma decode_levels_rle_roundtrip rows : len rows < 2 ^ 31 ->
+  decode_levels_rle 1 (RleModel.encode_all 1 (levels_of rows)) (length rows) = Ok (levels_of rows).
+Proof.
+  intros Hn. unfold decode_levels_rle. cbn [Nat.eqb].
+  assert (Ll : length (levels_of rows) = length rows) by (unfold levels_of; apply map_length).
+  rewrite <- Ll.
+  rewrite LevelProofs.levels_roundtrip; [|lia|apply levels_small|rewrite Ll; unfold len in Hn; lia].
+  rewrite Nat.ltb_irrefl. reflexivity.
+Qed.
+
+(** REQUIRED column: the page body is the PLAIN encoding of the values *)
+Lemma body_required c rows : column_ok c = true -> c_rep c = Required -> forallb (row_ok c) rows = true ->
+  len rows < 2 ^ 31 -> len (plain_all (c_type c) (dense rows)) < 2 ^ 31 ->
+  read_data_page_v1 c (plain_all (c_type c) (dense rows)) (len rows)
+  = Ok (repeat 0 (length rows), dense rows).
+Proof.
+  intros Hc R Iok Hn Hsz. unfold read_data_page_v1, max_def. rewrite R. change (0 <? 0) with false. cbn iota.
+  assert (Nn : N.to_nat (len rows) = length rows) by (unfold len; apply Nat2N.id).
+  pose proof (required_rows c rows R Iok) as Er.
+  assert (El : length rows = length (dense rows)) by (rewrite Er at 1; apply map_length).
+  rewrite Nn, El. fold (len (dense rows)).
+  rewrite decode_plain_all; [|exact Hc|apply (dense_ok c rows Iok)|lia|unfold len in *; lia].
+  rewrite firstn_all2 by (rewrite repeat_length; lia). reflexivity.
+Qed.
+
+(** OPTIONAL column: length-prefixed level block, then the PLAIN encoding of the non-null values *)
+Lemma body_optional c rows : column_ok c = true -> c_rep c = Optional -> forallb (row_ok c) rows = true ->
+  len rows < 2 ^ 31 ->
+  len (encode_levels 1 (levels_of rows) ++ plain_all (c_type c) (dense rows)) < 2 ^ 31 ->
+  read_data_page_v1 c (encode_levels 1 (levels_of rows) ++ plain_all (c_type c) (dense rows)) (len rows)
+  = Ok (levels_of rows, dense rows).
+Proof.
+  intros Hc R Iok Hn Hsz. unfold read_data_page_v1, max_def. rewrite R. change (0 <? 1) with true. cbn iota.
+  unfold encode_levels in *. change (1 =? 0) with false in *. cbn iota in *.
+  change (PageWriterModel.bit_width_for_max 1) with 1%nat in *. change (bit_width_for_max 1) with 1%nat.
+  rewrite <- app_assoc in *. rewrite !len_app' in Hsz.
+  assert (Nn : N.to_nat (len rows) = length rows) by (unfold len; apply Nat2N.id).
+  rewrite read_level_block_spec by lia. rewrite Nn, decode_levels_rle_roundtrip by exact Hn.
+  assert (Ll : length (levels_of rows) = length rows) by (unfold levels_of; apply map_length).
+  rewrite <- Ll, firstn_all, count_eq_levels. fold (len (dense rows)).
+  rewrite decode_plain_all; [reflexivity|exact Hc|apply (dense_ok c rows Iok)|lia|].
+  pose proof (dense_le rows). unfold len in *. lia.
+Qed.
+
+(** decoding the finalized page body returns exactly the rows written, for every partition into calls *)
+Theorem page_body_roundtrip c w rows : column_ok c = true -> PInv c w rows -> rows <> [] ->
+  len rows < 2 ^ 31 -> len (page_body w) < 2 ^ 31 ->
+  exists defs vals, read_data_page_v1 c (page_body w) (p_num_values w) = Ok (defs, vals)
+                    /\ rows_of_page c defs vals = rows.
+Proof.
+  intros Hc [Ic Id Iv In Inb Iok] Hne Hn Hsz.
+  unfold page_body in *. rewrite Ic, In, Id, Iv in *. unfold rows_of_page.
+  destruct (c_rep c) eqn:R.
+  - cbn [len length N.of_nat N.eqb app] in *.
+    rewrite body_required by assumption. eexists _, _. split; [reflexivity|].
+    symmetry. apply (required_rows c rows R Iok).
+  - assert (Hl0 : (len (levels_of rows) =? 0) = false).
+    { apply N.eqb_neq. unfold len, levels_of. rewrite map_length. destruct rows; [contradiction|cbn [length]; lia]. }
+    rewrite Hl0 in *. unfold max_def in *. rewrite R in *.
+    rewrite body_optional by assumption. eexists _, _. split; [reflexivity|].
+    apply assemble_of_rows. apply Forall_forall. reflexivity.
+Qed.
+
+Example page_body_roundtrip_ex :
+  let c := mkcol [111] TInt32 Optional 0 in
+  match add_all (pw_init c) [mkbatch [[1;0;0;0]] 2 (Some [1;0]); mkbatch [[2;0;0;0]] 2 (Some [0;1]); mkbatch [[3;0;0;0]] 1 None] with
+  | Ok w => read_data_page_v1 c (page_body w) (p_num_values w)
+            = Ok ([1;0;0;1;1], [[1;0;0;0];[2;0;0;0];[3;0;0;0]])
+  | _ => False
+  end.
+Proof. vm_compute. reflexivity. Qed.
